@@ -33,7 +33,7 @@ pub enum Stage {
 
 /// tokenize -> parse -> type_check with the result-shape oracle. `announce` is called before the
 /// type checker runs (the only stage that may legitimately diverge).
-pub fn pipeline(ctx: &Ctx, text: &str, run_checker: bool) -> Result<Stage, Failure> {
+pub fn pipeline(ctx: Option<&Ctx>, text: &str, run_checker: bool) -> Result<Stage, Failure> {
     let input = format!("{text:?}");
     let toks = match catch(|| crate::tokenizer::tokenize(None, text)) {
         Err(p) => return Err(Failure::new(format!("tokenize panicked: {p}"), input).with_sig("panic")),
@@ -54,7 +54,9 @@ pub fn pipeline(ctx: &Ctx, text: &str, run_checker: bool) -> Result<Stage, Failu
     if !run_checker {
         return Ok(Stage::Accepted);
     }
-    ctx.announce(false, None, &input);
+    if let Some(ctx) = ctx {
+        ctx.announce(false, None, &input);
+    }
     match catch(|| crate::type_checker::type_check(None, text, &term, &mut vec![], &mut vec![]).map(|_| ())) {
         Err(p) => Err(Failure::new(format!("type_check panicked: {p}"), input).with_sig("panic")),
         Ok(Err(errs)) => {
@@ -107,7 +109,7 @@ fn text_case(ctx: &Ctx, ch: &mut Ch) -> Outcome {
             t.into_iter().collect()
         }
     };
-    let stage = pipeline(ctx, &text, true)?;
+    let stage = pipeline(Some(ctx), &text, true)?;
     classify(ctx, stage, &text);
     Ok(())
 }
@@ -226,7 +228,7 @@ fn checker_case(ctx: &Ctx, ch: &mut Ch) -> Outcome {
     let mut g = SynGen::new(ch, cfg, &[]);
     let s = g.term(fuel).flatten();
     let text = sast::print_plain(&s);
-    let stage = pipeline(ctx, &text, true)?;
+    let stage = pipeline(Some(ctx), &text, true)?;
     classify(ctx, stage, &text);
     Ok(())
 }
@@ -289,7 +291,7 @@ fn cli_case(ctx: &Ctx, ch: &mut Ch, scratch: &cli::Scratch) -> Outcome {
     // only possible once the type checker runs: i.e. when the file tokenizes and parses.
     if run.status >= 1000 && String::from_utf8_lossy(&run.stderr).contains("has overflowed its stack") {
         if let Ok(text) = std::str::from_utf8(&bytes) {
-            if matches!(pipeline(ctx, text, false), Ok(Stage::Accepted)) {
+            if matches!(pipeline(Some(ctx), text, false), Ok(Stage::Accepted)) {
                 ctx.inconclusive("cli: stack exhausted in the type checker on a program that parses (divergence written in the program is allowed)");
                 return Ok(());
             }
@@ -317,14 +319,25 @@ pub fn def(tier: Tier) -> CheckDef {
         ],
         idle_limit_s: 120,
         needs_cli: true,
+        fuzz: Some(("fuzz_pipeline", 600000)),
         parts: vec![
+            Part {
+                name: "fuzz",
+                rounds: 0,
+                run: Box::new(|_, _| {}),
+                replay: Some(Box::new(|ctx, inp| match inp {
+                    ReplayInput::Text(t) => pipeline(Some(ctx), t, false).map(|_| ()),
+                    ReplayInput::Bytes(b) => { let t = String::from_utf8_lossy(b).into_owned(); pipeline(Some(ctx), &t, false).map(|_| ()) }
+                    ReplayInput::Choices(_) => Err(Failure::new("the fuzz part replays raw artifacts", "")),
+                })),
+            },
             Part {
                 name: "texts",
                 rounds,
                 run: Box::new(|ctx, r| ctx.prop("texts", r, 1500, 300, text_case)),
                 replay: Some(Box::new(|ctx, inp| match inp {
                     ReplayInput::Choices(c) => text_case(ctx, &mut Ch::new(c)),
-                    ReplayInput::Text(_) => Err(Failure::new("this part replays from choices", "")),
+                    _ => Err(Failure::new("this part replays from choices", "")),
                 })),
             },
             Part {
@@ -366,7 +379,7 @@ pub fn def(tier: Tier) -> CheckDef {
                 run: Box::new(|ctx, r| ctx.prop("damaged", r, 1500, 500, damaged_case)),
                 replay: Some(Box::new(|ctx, inp| match inp {
                     ReplayInput::Choices(c) => damaged_case(ctx, &mut Ch::new(c)),
-                    ReplayInput::Text(_) => Err(Failure::new("this part replays from choices", "")),
+                    _ => Err(Failure::new("this part replays from choices", "")),
                 })),
             },
             Part {
@@ -375,7 +388,7 @@ pub fn def(tier: Tier) -> CheckDef {
                 run: Box::new(|ctx, r| ctx.prop("checker", r, 800, 500, checker_case)),
                 replay: Some(Box::new(|ctx, inp| match inp {
                     ReplayInput::Choices(c) => checker_case(ctx, &mut Ch::new(c)),
-                    ReplayInput::Text(_) => Err(Failure::new("this part replays from choices", "")),
+                    _ => Err(Failure::new("this part replays from choices", "")),
                 })),
             },
             Part {
@@ -390,7 +403,7 @@ pub fn def(tier: Tier) -> CheckDef {
                         let scratch = cli::Scratch::new("c14-replay");
                         cli_case(ctx, &mut Ch::new(c), &scratch)
                     }
-                    ReplayInput::Text(_) => Err(Failure::new("this part replays from choices", "")),
+                    _ => Err(Failure::new("this part replays from choices", "")),
                 })),
             },
         ],
